@@ -53,7 +53,10 @@ BASE_CONSTANTS = {
     "G_ConsistencyCheck": "TRUE", "G_TruncateOnConflict": "TRUE", "G_FollowerOwnTerm": "TRUE",
     "G_LeaderOwnTerm": "TRUE", "G_MajorityOfVoters": "TRUE", "G_FlushBeforeAck": "TRUE",
     "G_LeaderFlush": "TRUE", "G_StaleTermAppend": "TRUE",
-    "FixD1": "TRUE",
+    "G_ConfigCommittedFirst": "TRUE", "G_OwnTermBeforeConfig": "TRUE", "G_PromoteAfterRound": "TRUE",
+    "G_NonVoterNoElection": "TRUE", "G_StepDownWhenDemoted": "TRUE",
+    "MaxRoundOrd": 3, "RoundFastSet": "{TRUE}", "MaxCfgReqs": 0, "EdAddPromote": "{}", "EdAddNonvoter": "{}", "EdPromote": "{}", "EdDemote": "{}", "EdRemove": "{}", "EdForceRemove": "{}",
+    "FixD1": "TRUE", "FixD2": "TRUE",
 }
 
 
@@ -150,6 +153,11 @@ def ev_to_step(ev):
         return {"k": "client", "n": N(ev["n"]), "ops": [{"op": "update", "id": ev["val"]}]}
     if k in ("fsm", "crash", "restart"):
         return {"k": k, "n": N(ev["n"])}
+    if k == "changeConfig":
+        nodes = ev["nodes"]
+        lst = [{"id": node_num(i), "voter": v["voter"], "action": v["action"]} for i, v in (nodes.items() if isinstance(nodes, dict) else [])]
+        lst.sort(key=lambda x: x["id"])
+        return {"k": "task", "n": N(ev["n"]), "task": "changeConfig", "arg": {"nodes": lst}}
     if k == "disconnected":
         return {"k": k, "n": N(ev["n"]), "peer": N(ev["peer"])}
     raise HarnessError("unknown event kind %r" % (k,))
@@ -162,7 +170,13 @@ def node_set(txt):
 def schedule_from_events(name, events, consts):
     c = dict(BASE_CONSTANTS)
     c.update(consts)
-    steps = [s for s in (ev_to_step(e) for e in events) if s]
+    steps = []
+    for e in events:
+        st = ev_to_step(e)
+        if st:
+            if e.get("rf") is False:
+                st["rf"] = False
+            steps.append(st)
     return {"name": name, "nodes": node_set(c["Node"]), "voters": node_set(c["InitVoters"]), "nonvoters": node_set(c["InitNonvoters"]),
             "eager": {"ldr": c["EagerLdr"] == "TRUE", "poll": c["EagerPoll"] == "TRUE", "fsm": c["EagerFsm"] == "TRUE"},
             "steps": steps}
